@@ -53,6 +53,22 @@ fn decode_family(o: &mut Out, r: &mut Rng, th: bool) {
             if len <= v.len() { v.truncate(len) } else { let extra = r.bytes(len - v.len()); v.extend(extra) }
             o.op(&format!("decode.{}.length", codec), &format!("decode {} {}", codec, hex(&v)));
         }
+        // over-long and short inputs made of whole, individually valid 32-byte fields (valid points, canonical
+        // scalars, all-zero blocks = identity / zero): a length check that is not exact lets these through
+        if *n >= 32 {
+            for extra in 1..=3usize {
+                for kind in 0..3 {
+                    let mut v = valid_object(r, codec);
+                    for _ in 0..extra {
+                        match kind { 0 => v.extend(valid_point(r)), 1 => v.extend(valid_scalar(r)), _ => v.extend([0u8; 32]) }
+                    }
+                    o.op(&format!("decode.{}.overlong-fields", codec), &format!("decode {} {}", codec, hex(&v)));
+                }
+            }
+            let v = valid_object(r, codec);
+            for cut in 1..=(n / 32) { o.op(&format!("decode.{}.short-fields", codec), &format!("decode {} {}", codec, hex(&v[..n - 32 * cut]))); }
+            o.op(&format!("decode.{}.overlong-fields", codec), &format!("decode {} {}", codec, hex(&vec![0u8; n + 64])));
+        }
         // every special 32-byte value in every field position
         if *n >= 32 {
             for f in 0..(n / 32) {
